@@ -328,6 +328,36 @@ fn exec_op(
             end_op(run, tid, idx, start, res, None, None);
             Ok(())
         }
+        Op::CallStorm { slot, m, x, n } => {
+            let mock = mock_of(run, *slot);
+            let start = begin_op(run, tid, idx, None, mock);
+            let res = match get_slot(run, *slot) {
+                None => OpResult::Skipped("slot empty".into()),
+                Some(h) => {
+                    let mut runs: Vec<(String, u32)> = vec![];
+                    {
+                        let _one_unit = unimock::verif::CriticalGuard::enter();
+                        for _ in 0..*n {
+                            let key = match catch_unwind(AssertUnwindSafe(|| crate::corpus::dispatch_ref(&h, *m, *x, 0))) {
+                                Ok(v) => format!("{v:#x}"),
+                                Err(p) => match classify_panic(p.as_ref()) {
+                                    Outcome::MockPanic(_) => "mock-panic".to_string(),
+                                    other => format!("{other:?}"),
+                                },
+                            };
+                            match runs.last_mut() {
+                                Some((k, c)) if *k == key => *c += 1,
+                                _ => runs.push((key, 1)),
+                            }
+                        }
+                    }
+                    release_handle(run, *slot, h);
+                    OpResult::Info(serde_json::to_string(&runs).unwrap_or_default())
+                }
+            };
+            end_op(run, tid, idx, start, res, None, None);
+            Ok(())
+        }
         Op::CloneStorm { slot, n } => {
             let mock = mock_of(run, *slot);
             let start = begin_op(run, tid, idx, None, mock);
